@@ -89,6 +89,7 @@ type sessTap struct {
 	closeGap  [2]bool // a close request from dir's sender was delivered while earlier data was missing
 	closeSeen [2]bool
 	dropped   [2]int
+	hsDone    bool // the first server data segment (the SOCKS reply) reached the client
 }
 
 func newTap(w *World) *Tap {
@@ -542,6 +543,9 @@ func (t *Tap) DatagramSent(d *simnet.Datagram) {
 	} else {
 		t.segs++
 		t.kinds[kindName(s.Meta.Type)+"/udp"]++
+		if w.Spec.KeepLog {
+			w.Net.Logf("  seg #%d %s sess=%d seq=%d unack=%d win=%d frag=%d pre=%d pay=%d suf=%d fate=%s", d.ID, kindName(s.Meta.Type), s.Meta.SessionID, s.Meta.Seq, s.Meta.UnAckSeq, s.Meta.Window, s.Meta.Fragment, s.Meta.PrefixLen, len(s.Payload), s.Meta.SuffixLen, d.Fate.Why)
+		}
 		ci := t.clientOfAddr(d.Flow)
 		ss := t.sessFor(d.Flow, s.Meta.SessionID, true, ci)
 		// C14: MTU of the sender
@@ -609,7 +613,7 @@ func (t *Tap) c13OnSend(ss *sessTap, dir int, s *refproto.Segment, d *simnet.Dat
 				ss.nextNew[dir] = m.Seq + 1
 			}
 			ss.tx[dir][m.Seq] = &txRec{typ: m.Type, fragment: m.Fragment, phash: ph, plen: len(s.Payload), count: 1}
-			if dir == 0 && ss.key == "" && len(s.Payload) > 0 && len(ss.head) < 300 && m.Seq == ss.headNext {
+			if dir == 0 && ss.key == "" && len(ss.head) < 300 && m.Seq == ss.headNext {
 				ss.head = append(ss.head, s.Payload...)
 				ss.headNext++
 				t.tryParseHead(ss)
@@ -644,14 +648,21 @@ func fnv32(b []byte) uint32 {
 }
 
 func (t *Tap) DatagramDelivered(d *simnet.Datagram) {
-	if d.Fate.Corrupt != nil {
-		return // a corrupted copy is not a delivery of the original
-	}
 	t.mu.Lock()
 	defer t.mu.Unlock()
 	s := t.peeked[d.ID]
 	if s == nil || t.isAttacker(d.Src) {
 		return
+	}
+	if d.Fate.Corrupt != nil {
+		// A corrupted copy counts as a delivery only if it still authenticates
+		// (e.g. only unauthenticated padding bytes were altered).
+		s2, _ := t.decodeDatagram(d.Flow, d.Data)
+		if s2 == nil {
+			return
+		}
+		t.w.probes["corrupt-copy-still-valid"]++
+		s = s2
 	}
 	ci := t.clientOfAddr(d.Flow)
 	ss := t.sessFor(d.Flow, s.Meta.SessionID, true, ci)
@@ -663,6 +674,11 @@ func (t *Tap) DatagramDelivered(d *simnet.Datagram) {
 		}
 		if s.Meta.Type == refproto.TypeDataC2SLE {
 			ss.clientLEDelivered = true
+		}
+		if ss.contig[1] >= 2 {
+			// open response (seq 0) and the first server data segment (seq 1,
+			// the SOCKS reply) have both reached the client
+			ss.hsDone = true
 		}
 	}
 	if s.Meta.Type == refproto.TypeCloseReq {
@@ -725,4 +741,14 @@ func (t *Tap) unexpectedAccept(conn net.Conn, req *model.Request) {
 	}
 	t.w.Res.Info["unexpectedAccept"] = fmt.Sprintf("%v from %v", req, conn.RemoteAddr())
 	t.w.mu.Unlock()
+}
+
+// handshakePending reports whether the session a datagram belongs to has not
+// yet completed its SOCKS handshake (the fairness budget is tighter then: the
+// client gives up 10 s after sending its request).
+func (t *Tap) handshakePending(flow string, id uint32) bool {
+	t.mu.Lock()
+	defer t.mu.Unlock()
+	ss := t.sess[fmt.Sprintf("%s/%d", flow, id)]
+	return ss == nil || !ss.hsDone
 }
